@@ -1,1 +1,5 @@
 import Wasp.Model.IdPool
+import Wasp.Model.Topic
+import Wasp.Model.Trie
+import Wasp.Model.Crdt
+import Wasp.Model.Dist
